@@ -62,6 +62,10 @@ def main():
             prop.run_shard(spec, ctx)
     except Exception:
         ctx.mark_inconclusive("worker exception: " + traceback.format_exc()[-1500:])
+    from . import shim
+    if shim.STATE.hook_error_count:
+        ctx.mark_inconclusive("%d monitor hook(s) raised, first: %r" % (
+            shim.STATE.hook_error_count, shim.STATE.hook_errors[:2]))
     dump_json(ctx.summary(), out)
     if reach is not None:
         reach(prop_id, spec["name"])
